@@ -19,6 +19,7 @@ import (
 	"github.com/foxcpp/maddy/framework/module"
 	moddkim "github.com/foxcpp/maddy/internal/modify/dkim"
 	"github.com/foxcpp/maddy/verifharness/vtrace"
+	"golang.org/x/net/idna"
 )
 
 // Key life-cycle replay (C08, DkimKeys.tla). Input rows:
@@ -42,9 +43,13 @@ type KeyRow struct {
 	Hist []KeyStep `json:"hist"`
 }
 
-var domName = map[string]string{"top": "example.org", "second": "example.net", "sub": "news.example.org", "other": "other.example"}
+var domName = map[string]string{"top": "example.org", "second": "strasse.example.net", "sub": "news.example.org",
+	"other": "other.example", "fold": "stra\u00dfe.example.net"}
 
 func domClass(d string) string {
+	if u, err := idna.ToUnicode(d); err == nil {
+		d = u
+	}
 	for k, v := range domName {
 		if strings.EqualFold(v, d) {
 			return k
@@ -126,7 +131,16 @@ func runKeys(t *testing.T, e *env, r KeyRow, tr *vtrace.Tracer) {
 			hdr.Add("From", "Sender <sender@example.org>")
 			body := buffer.MemoryBuffer{Slice: []byte("signed with whatever key is current\r\n")}
 			ctx := context.Background()
-			meta := &module.MsgMetadata{ID: fmt.Sprintf("keys%d-%d", r.ID, msgNo), OriginalFrom: from, SMTPOpts: smtp.MailOptions{}}
+			// (a sender in the sharp-s domain: SMTPUTF8 message on odd messages, A-label spelling otherwise)
+			opts := smtp.MailOptions{}
+			if st.Sender == "fold" {
+				if msgNo%2 == 1 {
+					opts.UTF8 = true
+				} else {
+					from = "sender@xn--strae-oqa.example.net"
+				}
+			}
+			meta := &module.MsgMetadata{ID: fmt.Sprintf("keys%d-%d", r.ID, msgNo), OriginalFrom: from, SMTPOpts: opts}
 			ms, err := m.ModStateForMsg(ctx, meta)
 			if err != nil {
 				t.Fatal(err)
